@@ -16,19 +16,65 @@
      transfer or store ends the session with at most the error report, which starts with '*';
    - a side never panics whatever prefix it receives (C02_cut_no_panic), and only intact
      transfers are handed over (C02_intact).
-   The two-party statement as it was first written down here is FALSE (C02_first_statement_
-   refuted: nothing tied the proposed MID to the MID inside the compressed message); the
-   corrected statement (C02_safety_statement: opposite roles, well-formed outbox) is kept as a
-   Prop: its proof needs the full two-party simulation and is decided per run -- every cut
-   position of every recorded exchange in both directions with two real sessions, storage
-   errors at chosen messages (also inside the real directory mailbox), and histories of faulty
-   sessions followed by a clean one. *)
-From Verif Require Import Base.Bytes B2F.Secure B2F.Side B2F.SideP B2F.CutP.
+   - TWO-PARTY SAFETY (C02_safety): for two sides of opposite roles with compatible handshakes,
+     outboxes whose fields respect the wire formats (no CR or blank in a MID, compressed size
+     6 .. 2^63-1) and A's compressed messages carrying the MIDs they are proposed under: if A
+     reports mid as sent, then B -- fed ANY prefix of what A wrote, and having produced what A
+     received -- has received it completely and handed to its handler exactly the
+     decompressed message of A's outbox.  No restriction on the cut position, the number of
+     blocks and turns, who sends, the answers (accept / reject / defer / duplicates), failing
+     stores or a missing handler on B.  The proof is a joint invariant at turn boundaries
+     (B2F/PairP.v) over inverse lemmas: what one side writes the other parses (proposal
+     lines, F> checksum, FS answers, framed transfers, the handshake).
+   The statement went through two corrections, each forced by a Coq counterexample: as first
+   written it ignored that the proposed MID need not be the MID inside the compressed message
+   (C02_first_statement_refuted); with that repaired it still failed for a master whose MOTD
+   lines imitate a SID, a prompt and an answer line, and for a peer MID containing CR
+   (C02_second_statement_refuted_motd / _mid) -- hence the hypotheses on the handshake and on
+   the MIDs of BOTH outboxes.  Per run the same statement is judged on real sessions: every cut
+   position of every recorded exchange in both directions, storage errors at chosen messages
+   (also inside the real directory mailbox), histories of faulty sessions followed by a clean
+   one (convergence is not a theorem). *)
+From Verif Require Import Base.Bytes B2F.Secure B2F.Side B2F.SideP B2F.CutP B2F.PairDefs B2F.PairHs B2F.PairP.
 Open Scope N_scope.
 
-(* FULL STATEMENT of two-party safety on the model (not asserted): if A marks mid sent, then
-   B, run on any prefix of what A wrote that makes it produce what A received, processed it *)
-Definition C02_safety_statement : Prop := two_party_safety_corrected.
+(* TWO-PARTY SAFETY *)
+Theorem C02_safety : forall (a b : side_cfg) (in_a : bytes) (k : nat) (mid : bytes),
+  c_master a = negb (c_master b) ->
+  hs_compat (if c_master a then a else b) (if c_master a then b else a) ->
+  Forall prop_syn (h_outbox (c_handler a)) -> Forall prop_syn (h_outbox (c_handler b)) ->
+  outbox_wf (c_handler a) ->
+  let oa := exchange a in_a in
+  In (EvSetSent mid false) (x_events oa) ->
+  in_a = firstn (length in_a) (x_wire (exchange b (firstn k (x_wire oa)))) ->
+  exists p data, In p (h_outbox (c_handler a)) /\ o_mid p = mid /\
+    proposal_message (o_cdata p) = MOk mid data /\
+    In (EvProcess mid data true) (x_events (exchange b (firstn k (x_wire oa)))).
+Proof. exact two_party_safety_intact. Qed.
+Print Assumptions C02_safety.
+
+(* the handshake hypothesis in syntactic form: no MOTD, printable handshake fields, a
+   non-empty forwarder list *)
+Theorem C02_safety_text : forall (a b : side_cfg) (in_a : bytes) (k : nat) (mid : bytes),
+  c_master a = negb (c_master b) -> pair_text_ok a b ->
+  Forall prop_syn (h_outbox (c_handler a)) -> Forall prop_syn (h_outbox (c_handler b)) ->
+  outbox_wf (c_handler a) ->
+  let oa := exchange a in_a in
+  In (EvSetSent mid false) (x_events oa) ->
+  in_a = firstn (length in_a) (x_wire (exchange b (firstn k (x_wire oa)))) ->
+  exists data, In (EvProcess mid data true) (x_events (exchange b (firstn k (x_wire oa)))).
+Proof. exact two_party_safety_text. Qed.
+Print Assumptions C02_safety_text.
+
+(* the hypotheses are met by a complete run that delivers a message (non-vacuity) *)
+Example C02_safety_nonvacuous := two_party_safety_cx_nonvacuous.
+
+(* the second version of the statement (roles and outbox_wf only) is false as well *)
+Theorem C02_second_statement_refuted_motd : ~ two_party_safety_corrected.
+Proof. exact two_party_safety_corrected_is_false_motd. Qed.
+Theorem C02_second_statement_refuted_mid : ~ two_party_safety_corrected.
+Proof. exact two_party_safety_corrected_is_false_mid. Qed.
+Print Assumptions C02_second_statement_refuted_motd.
 
 (* the statement as first written (without the hypotheses on roles and outbox) is false *)
 Theorem C02_first_statement_refuted : ~ two_party_safety_as_stated.
